@@ -7,10 +7,16 @@ dwell times are drawn on the scale of a transaction, and a reader can be parked 
 ix.searcher()/refresh() (between the TOC read and the opening of the segment files).  Monitors:
 
   (i)   held-snapshot   the fingerprint of a HELD searcher (full logical dump of its reader through vf/dump.py +
-                        probe searches: stored fields, lexicon, postings, field lengths, vectors, columns, sorted
-                        search, scored search) never changes and never raises whatever commits / merges / clean-ups
-                        completed meanwhile; in half of the iterations the lazily opened parts (columns, lengths,
-                        vectors) are touched for the first time only AFTER the dwell
+                        probe searches: stored fields, lexicon, postings, field lengths, vectors, the user-facing column
+                        API - IndexReader.has_column / column_reader of the sortable field n and of the column-ONLY
+                        field c, per index and per leaf reader - search sorted by n, search sorted AND grouped by the
+                        column-only field c (no posting-list fallback), scored search) never changes and never raises
+                        whatever commits / merges / clean-ups completed meanwhile; in half of the iterations the lazily
+                        opened parts (columns, lengths, vectors) are touched for the first time only AFTER the dwell, in
+                        the other half EVERY part (the column reads / sorts / groups included) is read before the dwell
+                        and again after it.  The harness records on every searcher object which parts it has already
+                        read correctly (parts_read_ok): a later failure of such a part is never excused by the listed
+                        loose-segment finding
   (ii)  commit-state    a searcher opened, or refreshed via Searcher.refresh(), reports a generation at least as new as
                         every commit that had COMPLETED before the call, and its content equals the dict model of the
                         generation it reports (reader.generation()): every committed document exactly once, nothing
@@ -38,7 +44,10 @@ RULE = ("a case is one schedule: storage {FileStorage with mmap, FileStorage(sup
         "layout {compound, loose, mixed} x a prelude of 1..4 segments x 1..2 writer threads with 2..4 transactions each "
         "drawn from {append (merge=False), default merging commit, optimize, delete-only, update, CLEAR, empty commit, "
         "cancel} x 1..3 reader threads looping open / (probe) / dwell {0,5,50,300,800,2500 steps} / probe / up_to_date / "
-        "refresh-or-close until all writers are done; scheduler policy (uniform random with stickiness / PCT / round "
+        "refresh-or-close-or-keep until all writers are done (a kept or self-refreshed searcher is probed again: every part "
+        "it has read before is re-read after further commits); documents carry a sortable NUMERIC n and a column-only "
+        "COLUMN field c = n % 5, and each full probe reads both columns through has_column / column_reader (index and "
+        "leaf readers), sorts by n, and sorts + groups by c; scheduler policy (uniform random with stickiness / PCT / round "
         "robin) drawn per schedule. Population A = all segments compound (any disagreement is a violation); population "
         "B = loose or mixed layouts (two-level oracle for the listed lazy-file finding). A case is non-trivial when a "
         "commit completed while a reader was held; distinct = distinct (storage, layout, writers, readers, transaction "
@@ -58,16 +67,25 @@ ASSUMPTIONS = [
     "documents carry a unique numeric sort key so that the sorted search has one correct order",
     "the lexicon may still list a term whose documents have all been deleted (segments are immutable until merged); "
     "such a term must have an empty posting list and is ignored in the comparison with the model",
-    "scores are compared only between two probes of the same held searcher (the reference scorer is C09's business)",
+    "scores, and the per-leaf-reader has_column() answers, are compared only between two probes of the same held "
+    "searcher (the reference scorer is C09's business; which segment has which column file is not part of the model)",
+    "the column-only field c is derived from n (n % 5, no extra random draw); groups are compared as key -> sorted "
+    "document keys, the order of the sorted+grouped search as the order by (c, n), which is unique",
     "loose (compound=False) segments: see the listed finding; the classifier emits the known mechanism only when ALL "
     "of: the layout is not all-compound; the reader holds a loose segment of which files were removed (tap 'remove' "
     "events); the disagreement is confined to column-backed parts (stored fields, lengths, vectors, columns, sorted / "
     "scored search) or is an exception raised while evaluating them; and the tap log shows that DURING THE FAILING "
     "PROBE this thread looked for (open-r / stat; RamStorage: file_exists / file_length, logged by a harness wrapper) "
     "a file of such a segment whose remove event precedes the look-up (a W3 reader caches the handles of the "
-    "column files it has opened and never looks for them again, so such a look-up is a FIRST open after the "
-    "removal). Everything else is a violation (in particular any failure of a reader over compound segments, and of "
-    "parts a loose-segment reader had opened before the removal)",
+    "column files it has opened and need never look for them again); and NONE of the failing parts had been read "
+    "correctly before by this very searcher object (per-searcher record of the parts evaluated without error and in "
+    "agreement with the model - a part that was read has all the files it needs open, so a look-up of a removed file "
+    "on its behalf is not a first open but a reader asking the directory about a file it already holds). Everything "
+    "else is a violation (in particular any failure of a reader over compound segments, and of parts a loose-segment "
+    "reader had read before the removal: those carry the mech suffix ':part-already-read-by-this-searcher-before-the-"
+    "files-were-removed'). The record is per searcher OBJECT: a searcher returned by refresh() that re-uses the segment "
+    "readers of its predecessor starts with an empty record (errs towards the listed finding, never towards a false "
+    "alarm); the same rule is applied in the process variant",
 ]
 SHARDS = {"quick": 4, "thorough": 16}
 BUDGET_S = {"quick": 60, "thorough": 660}
@@ -82,7 +100,11 @@ FLOORS = {
               "storage.file-mmap.schedules": 80, "storage.file-nommap.schedules": 80, "tx.kind.optimize": 90,
               "tx.kind.default": 180, "tx.kind.clear": 90, "tx.kind.delete-only": 90, "open.paused_inside": 600,
               "reader.open_retries": 20, "open.via_new_index_object": 150, "commits.published": 800, "proc.histories": 5, "proc.held_evals": 120,
-              "proc.held_across_commit": 20, "proc.final_checks": 5},
+              "proc.held_across_commit": 20, "proc.final_checks": 5,
+              # re-reads, after files of the searcher's loose segments were removed, of parts / of the user-facing
+              # column parts that this searcher had read before (about 1/3 of the minimum over seeds 0..3: 235 / 187)
+              "held.loose_removed.reread_of_parts_read_before": 75,
+              "held.loose_removed.reread_of_user_columns_read_before": 60},
     # thorough floors = about 1/4 of one 16-shard x 660 s run on the same busy machine
     "thorough": {"schedules": 6000, "sched.steps": 9000000, "interleavings.distinct": 6000, "reader.iterations": 45000,
                  "held.iterations_with_commit": 14000, "held.commits_during_hold": 25000,
@@ -93,7 +115,9 @@ FLOORS = {
                  "storage.file-nommap.schedules": 2000, "tx.kind.optimize": 2300, "tx.kind.default": 4500,
                  "tx.kind.clear": 2300, "tx.kind.delete-only": 2300, "open.paused_inside": 15000,
                  "commits.published": 20000, "proc.histories": 250, "proc.reader_iterations": 8000,
-                 "proc.held_across_commit": 1000},
+                 "proc.held_across_commit": 1000, "held.loose_removed.reread_of_parts_read_before": 1400,
+                 "held.loose_removed.reread_of_user_columns_read_before": 1100,
+                 "proc.loose.reread_of_user_columns_after_commit": 150},
 }
 
 VOCAB = ["alfa", "bravo", "charlie", "delta", "echo", "foxtrot", "golf", "hotel"]
